@@ -317,7 +317,7 @@ def vm_worker(args):
             orig_ev = net.ev
 
             def ev(*e):
-                if e[0] in ('all_color', 'all_power', 'color', 'power'):
+                if e[0] in ('all_color', 'all_power', 'color', 'power', 'tile', 'zone'):
                     w = vt.advance('work', 0, 50)                # sending takes an arbitrary time
                     holder['clock']._event.waits = 0
                     stamps.append((e[0], vt.now, w))
@@ -606,7 +606,10 @@ def run(tier, seed):
           ('logical', 'time %d repeat 2 begin on all end' % (S + 1), [1], [[1], [1, 1]], 'loop'),
           ('logical', 'time %d on all units raw off all' % (S + 1), [1], [[1], [1, 1]], 'switch-to-raw-keeps-delay'),
           ('raw', 'units raw duration 700 time %d on all units logical off all units rgb on "A"' % (S + 1), [1], [[1], [1, 1], [1, 1, 1]], 'switch-from-raw-keeps-delay'),
-          ('logical', 'duration 3 time %d on all units raw units logical off all units rgb units raw on "A"' % (S + 1), [1], [[1], [1, 1], [1, 1, 1]], 'round-trips-keep-delay')]
+          ('logical', 'duration 3 time %d on all units raw units logical off all units rgb units raw on "A"' % (S + 1), [1], [[1], [1, 1], [1, 1, 1]], 'round-trips-keep-delay'),
+          # a matrix block is one timed action however its cells get staged (a routine that stages, several stages)
+          ('logical', 'define paint begin stage row 0 end time %d set "M" begin paint paint stage row 1 end on all' % (S + 1), [1], [[1], [1, 1]], 'matrix-block-is-one-action'),
+          ('logical', 'time %d set "M" row 0 1 on "A" set "M" begin stage column 1 end off "A"' % (S + 1), [1], [[1], [1, 1], [1, 1, 1], [1, 1, 1, 1]], 'matrix-forms')]
     for mode, text, sids, due, tag in vm:
         items.append({'kind': 'vm', 'mode': mode, 'text': text, 'sids': sids, 'due': due, 'tag': tag,
                       'max_paths': 2000 if q else 20000, 'budget_s': 25 if q else 200})
